@@ -297,8 +297,8 @@ def forced_cases():
 def part_a(ctx, tmp):
     np, PathStorage, Path, load_path, REPEX_state, System = _imports()
     rng = ctx.rng
-    n_ok = 300 if ctx.quick else 4000
-    n_bad = 450 if ctx.quick else 5000
+    n_ok = 300 if ctx.quick else 2000
+    n_bad = 450 if ctx.quick else 3000
     cases, code, lines = [], [], []
     ps_long = PathStorage()      # ONE storage object for every path of this run (REPEX_state.pstore is even class-level)
     forced = forced_cases()
@@ -776,18 +776,20 @@ def gen_histories(ctx):
             out.append((nf, [rng.choice([[], [".adp"], [".adp", ".log"], [".log"]]) for _ in range(nf)]))
         return out
     # exhaustive accept/reject patterns, small
-    L = 5 if ctx.quick else 9
+    L = 5 if ctx.quick else 7
     for (d, a, k) in (settings[:8] if ctx.quick else settings):
         if d is None:
             continue
+        if not ctx.quick and not d:
+            continue
         for n_ens in ((2,) if ctx.quick else (2, 3)):
-            for pat in itertools.product((1, 0), repeat=L):
+            for pat in itertools.product((1, 0), repeat=L if n_ens == 2 else L - 1):
                 if ctx.quick and (not d) and sum(pat) not in (L, L - 1):
                     continue
                 hs.append({"n_ens": n_ens, "workers": 1, "seed": 0, "delete_old": d, "delete_old_all": a, "keep": k,
                            "steps": [(bool(x), 0, [(1, [[".adp"]]), (2, [[], [".adp"]])]) for x in pat], "kind": "exhaustive"})
     # random
-    nrand = 5 if ctx.quick else 120
+    nrand = 5 if ctx.quick else 30
     for (d, a, k) in settings:
         for n_ens in (2, 3, 4, 5):
             for r in range(nrand if n_ens < 5 else max(3, nrand // 3)):
@@ -883,7 +885,7 @@ def run(ctx):
                 "maps, idx None/any, reversed frames, 0–3 order columns, energies both/none/mixed) stored by the real "
                 "PathStorage.output and reloaded by load_path, then the same with one of 19 kinds of damage to the archive; "
                 "non-trivial = multi-file or reversed or missing energy, or any damaged case; distinct by the whole case. "
-                "B: accept/reject histories through the real treat_output: exhaustive patterns of length 5 (9) for 2 (2–3) "
+                "B: accept/reject histories through the real treat_output: exhaustive patterns of length 5 (7, 6) for 2 (2, 3) "
                 "ensembles and every (delete_old, delete_old_all, keep_traj_fnames) setting, then seeded random histories for "
                 "2–5 ensembles, 1–2 workers; non-trivial = at least one accepted move; distinct by the whole history.")
     os.makedirs(ROOT, exist_ok=True)
@@ -904,7 +906,10 @@ def run(ctx):
         "every frame of a path has the same number of order parameters (rows with another column count are skipped by read_some_lines)",
         "trial paths own fresh files in the worker directory (true of shoot / wire_fencing / retis_swap_zero: propagate and dump_phasepoint write new files)",
         "at most n−1 replacements per treat_output call (the code picks one or two ensembles; n ≥ 3)",
-        "pn_olds is not persisted: after a restart queued paths are never deleted (not a safety issue; not checked)",
+        "pn_olds is not persisted: after a restart queued paths are never deleted (checked: their files must stay)",
+        "object state is tie-only (the model is functional): ONE PathStorage stores every path of part A and each archive is compared byte-wise with a fresh object's; the loaded path is stored and loaded a second time; earlier loaded paths are re-read after later stores/loads (no aliasing)",
+        "restarts between calls (1 worker) are tie-only: a new REPEX_state is built from restart.toml + load_paths_from_disk, the predicates go on, the model comparison stops at the first restart of a history",
+        "two source files with the SAME basename inside one path overwrite each other in accepted/ (unchanged code; engines name files by ensemble, pid and counter) — not generated, reported separately",
     ]
 
 
